@@ -13,7 +13,8 @@ from . import c04
 PROP = "C20"
 MOD = __name__
 
-RULE = ("Hypothesis-generated args_definitions of the documented shape (0-4 optional tag slots with 1-2 tags, parameter "
+RULE = ("(classes written with separate or shared extra_arg dict objects, deriving from ActionCommand/TestCommand directly or from another "
+        "registered and already used command class) Hypothesis-generated args_definitions of the documented shape (0-4 optional tag slots with 1-2 tags, parameter "
         "absent|string|number|stringlist|[string,stringlist], optional value set, optional valid_for subset; then 1-3 required "
         "arguments of type string/number/stringlist; action or test; with or without extension), each registered under a fresh "
         "name with add_commands; per definition all uses (every subset of slots in up to 3 orders, each tag, lower/upper case, "
@@ -59,7 +60,12 @@ def definitions(draw):
                     "required": True})
     role = draw(st.sampled_from(["action", "test"]))
     ext = draw(st.sampled_from([None, None, "vfcustom", "fileinto"]))
-    return {"slots": slots, "pos": pos, "role": role, "ext": ext}
+    # how the class is written down (no bearing on what the definition means):
+    # equal extra_arg dicts may be one shared object; the class may derive from another
+    # registered command class (with its own, different definition) that was used before
+    share = draw(st.booleans())
+    derive = draw(st.sampled_from([None, None, 0, 1, 2, 3, 4]))
+    return {"slots": slots, "pos": pos, "role": role, "ext": ext, "share": share, "derive": derive}
 
 
 def _ptypes(t):
@@ -89,12 +95,40 @@ def to_entry(name, d):
     return Entry(name, "command" if d["role"] == "action" else "test", ext=d["ext"], slots=slots, pos=pos)
 
 
+_SHARED = {}
+
+
 def register(d):
     k = next(_counter)
     name = ("vfc%dx%d" if k % 2 else "vf_c%d_%d") % (os.getpid(), k)
     cname = name.capitalize() + "Command"
     base = impl.sl_commands.ActionCommand if d["role"] == "action" else impl.sl_commands.TestCommand
-    attrs = {"args_definition": [dict(x) for x in d["slots"]] + [dict(x) for x in d["pos"]]}
+    if d.get("derive") is not None:
+        # a parent command of the same role with d["derive"] required strings, registered
+        # and used once before the class under test is derived from it
+        pname = name + "p"
+        pattrs = {"args_definition": [{"name": "p%d" % i, "type": ["string"], "required": True} for i in range(d["derive"])]}
+        parent = type(pname.capitalize() + "Command", (base,), pattrs)
+        impl.sl_commands.add_commands(parent)
+        use = pname.encode() + b"".join(b' "v%d"' % i for i in range(d["derive"]))
+        text = use + b";" if d["role"] == "action" else b"if " + use + b" { keep; }"
+        o = impl.parse_outcome(text)
+        if o.verdict is not True:
+            raise core.HarnessError("parent command of a derived definition not usable: %r -> %s" % (text, o.summary()))
+        base = parent
+    slots = [dict(x) for x in d["slots"]]
+    if d.get("share"):
+        # written with shared constants: equal extra_arg dicts are one object, within the
+        # class and across the classes this process has registered
+        for sl in slots:
+            if "extra_arg" in sl:
+                key = repr(sorted(sl["extra_arg"].items()))
+                sl["extra_arg"] = _SHARED.setdefault(key, dict(sl["extra_arg"]))
+    else:
+        for sl in slots:
+            if "extra_arg" in sl:
+                sl["extra_arg"] = dict(sl["extra_arg"])
+    attrs = {"args_definition": slots + [dict(x) for x in d["pos"]]}
     if d["ext"]:
         attrs["extension"] = d["ext"]
     cls = type(cname, (base,), attrs)
@@ -356,7 +390,8 @@ def worker(arg):
             if has_param and col.evals % 503 == 0:
                 sample = {"definition": d, "use": text, "kind": kind, "ref": r.verdict}
             col.case(key=repr(d).encode() + text.replace(name.encode(), b"CMD").replace(name.encode().upper(), b"CMD"),
-                     nontrivial=has_param, classes=("kind:" + kind, "ref:" + r.verdict, "role:" + d["role"]), sample=sample)
+                     nontrivial=has_param, classes=("kind:" + kind, "ref:" + r.verdict, "role:" + d["role"], "written:shared-extra_arg" if d.get("share") else "written:separate-dicts",
+                              "written:derived-class" if d.get("derive") is not None else "written:direct-class"), sample=sample)
             for b, det in fails:
                 col.fail(b, {"definition": d, "args": args, "kind": kind, "upper": k % 7 == 3}, det)
         # missing require
@@ -423,7 +458,8 @@ def main(tier, seed, t0):
     col = core.run_shards(worker, [(seed * 1000 + 600 + k, n) for k in range(16)])
     need = ["kind:valid", "kind:unknown-tag", "kind:surplus-string", "kind:tag-after-positional", "kind:ill-typed-positional",
             "kind:ill-typed-parameter", "kind:value-outside-set", "kind:parameter-after-tag-not-valid_for",
-            "kind:missing-require", "kind:unregistered-sibling", "ref:VALID", "ref:INVALID", "role:action", "role:test"]
+            "kind:missing-require", "kind:unregistered-sibling", "ref:VALID", "ref:INVALID", "role:action", "role:test",
+            "written:shared-extra_arg", "written:derived-class"]
     missing = [c for c in need if not col.classes.get(c)]
     if missing:
         raise core.HarnessError("generator classes empty: %s" % missing)
